@@ -122,6 +122,27 @@ def run(ctx):
             ctx.ob('C05.3', f, 'tmp-then-rename:' + c.name, ok,
                    '%s(%s) %s' % (c.name, f.lname(p) if p is not None else '?', 'is followed by rename of the same path into place' if ok else 'creates the final file IN PLACE (no rename of that path follows): a crash leaves a torn file under its real name'), line=c.line)
     ctx.floor('C05.3', 'file creations in ripd', n, 18)
+    # ... and the temporary can be created again after a crash: a tmp that is opened with an exclusive create
+    # (create_new) fails with AlreadyExists for ever once a crash between create and rename left it behind
+    ctx.rule('C05.10', 'a temporary file survives no crash as an obstacle: the source path of every rename in ripd is never created exclusively (OpenOptions::create_new / File::create_new) in the same function — the leftover of a crash between create and rename must be overwritten by the next attempt, not make every later save fail.')
+    nren = 0
+    for f in [g for g in P.fns.values() if g.crate == 'ripd']:
+        rn = f.calls(RENAME)
+        if not rn:
+            continue
+        excl = f.calls(r'^std::fs::File::create_new$')
+        for o_ in f.calls(r'^std::fs::OpenOptions::open$'):
+            chain = reads_locals(f, o_.args[0])
+            if any(c_.dest and c_.dest['l'] in chain and (op_const(c_.args[1]) or {}).get('v') is not False for c_ in f.calls(r'^std::fs::OpenOptions::create_new$')):
+                excl.append(o_)
+        for r in rn:
+            nren += 1
+            ctx.touch(f)
+            rp = f.root_local(r.args[0], through_calls=(r'::as_ref$', r'::deref$', r'::as_path$'))
+            hit = [e_ for e_ in excl if rp is not None and f.root_local(e_.args[-1], through_calls=(r'::as_ref$', r'::deref$', r'::as_path$')) == rp]
+            ctx.ob('C05.10', f, 'tmp-recreatable', not hit, 'the rename source `%s` is %s' % (f.lname(rp) if rp is not None else '?', 'not created exclusively' if not hit else
+                   'created with create_new (line %s): after a crash between create and rename the leftover makes this and every later attempt fail with AlreadyExists' % hit[0].line), line=r.line)
+    ctx.floor('C05.10', 'renames in ripd', nren, 10)
 
     # ---------------------------------------------------------------- C05.4
     from .common import log_writer_calls
